@@ -49,7 +49,7 @@ fn strip_hide(n: &Node) -> Node {
             | Node::Complete { n, .. }
             | Node::CompleteShell(n, _)
             | Node::Boxed(n) => go(n),
-            Node::Hide(_) | Node::Named(_) | Node::Pos(_) | Node::Pure(_) | Node::Fail(_) => {}
+            Node::Hide(_) | Node::Named(_) | Node::Pos(_) | Node::Pure(_) | Node::Fail(_) | Node::Any(_) => {}
         }
     }
     go(&mut out);
